@@ -3,6 +3,7 @@ package synth
 import (
 	"fmt"
 	"math/rand"
+	"sort"
 	"strings"
 )
 
@@ -48,6 +49,9 @@ type Profile struct {
 	TemplateTwins     bool // same path shape under another verb with differently named {variables} (spec profiles only)
 	SameNameTypes     bool // an enum twin with the same type name in another package, used under the same parameter name
 	LookalikeTypes    bool // user types named like the types gleece special-cases (context.Context, time.Time) in packages named alike
+	GroupedParams     bool // some signatures group consecutive same-typed parameters (a, b, c string)
+	ErrCodeIsSuccess  bool // an @ErrorResponse whose code equals the route's @Response code (accepted by the validator)
+	RepeatedErrCodes  bool // a repeated @ErrorResponse code (a warning) in front of further codes
 	DashedWireNames   bool // wire names with '-' and '_' for path/query parameters
 	OAuthSchemes      bool // oauth2 (1-4 flows, differing scopes) and openIdConnect schemes in the configuration
 }
@@ -427,6 +431,10 @@ func (g *gen) genSecurityOne() Security {
 			s.Scopes = append(s.Scopes, g.pick(scopePool))
 		}
 	}
+	// free text after the annotation, sometimes with the "})" that once confused the splitter
+	if g.chance(0.15) {
+		s.Descr = g.pick([]string{"Admins only (see {policy})", "needs a token", "callers listed in ({acl})", "see RFC 6750"})
+	}
 	return s
 }
 
@@ -446,7 +454,8 @@ func enumLits(base string, n int, r *rand.Rand) []EnumConst {
 	for i := 0; i < n; i++ {
 		switch {
 		case base == "string":
-			v := []string{"red", "green", "blue", "dark-grey", "a b", "ALPHA", "x_y", "1st"}[(i+r.Intn(3))%8]
+			pool := []string{"red", "green", "blue", "dark-grey", "a b", "ALPHA", "x_y", "1st", "R&D", "a<b>c", "it's"}
+			v := pool[(i+r.Intn(4))%len(pool)]
 			dup := false
 			for _, o := range out {
 				if o.Text == v {
@@ -471,9 +480,18 @@ func enumLits(base string, n int, r *rand.Rand) []EnumConst {
 			out = append(out, EnumConst{Lit: v, Text: v})
 		case strings.HasPrefix(base, "uint"):
 			v := fmt.Sprint(i * 3)
+			if i == n-1 && n > 2 {
+				// the last constant sits at the top of the width (beyond int64 for the 64-bit kinds)
+				v = map[string]string{"uint8": "255", "uint16": "65535", "uint32": "4294967295", "uint64": "18446744073709551615", "uint": "9223372036854775808"}[base]
+			}
 			out = append(out, EnumConst{Lit: v, Text: v})
 		default:
 			v := fmt.Sprint(i*7 - 7)
+			if i == n-1 && n > 2 {
+				v = map[string]string{"int8": "127", "int16": "32767", "int32": "2147483647", "int64": "9223372036854775807", "int": "9223372036854775807"}[base]
+			} else if i == 0 && n > 3 {
+				v = map[string]string{"int8": "-128", "int16": "-32768", "int32": "-2147483648", "int64": "-9223372036854775808", "int": "-9223372036854775808"}[base]
+			}
 			out = append(out, EnumConst{Lit: v, Text: v})
 		}
 	}
@@ -491,7 +509,7 @@ func (g *gen) genTypes() {
 	if prof.ParamTypeLevel < 2 && prof.Models < 2 {
 		nEnums, nAliases = g.r.Intn(2), g.r.Intn(2)
 	}
-	enumBases := []string{"string", "string", "int", "int8", "uint16", "int64", "float64", "bool"}
+	enumBases := []string{"string", "string", "int", "int8", "uint16", "int64", "float64", "bool", "uint64", "uint"}
 	for i := 0; i < nEnums; i++ {
 		base := enumBases[g.r.Intn(len(enumBases))]
 		name := g.fresh(g.pick([]string{"Color", "Status", "Level", "Mode", "Kind"}))
@@ -1085,6 +1103,9 @@ func (g *gen) genMethod(c *Controller, idx int) Method {
 	m.Descr = g.descr()
 	m.UseDescrAnn = m.Descr != "" && g.chance(0.4)
 	m.Hidden = prof.Hidden && g.chance(0.2)
+	if m.Hidden && g.chance(0.3) {
+		m.HiddenArg = g.pick([]string{"staging", "internal", "v2"})
+	}
 	m.Deprecated = prof.Deprecated && g.chance(0.2)
 	m.ValueRecv = prof.ValueReceivers && g.chance(0.2)
 	if prof.Security && g.chance(0.35) {
@@ -1157,6 +1178,10 @@ func (g *gen) genMethod(c *Controller, idx int) Method {
 		if prof.WireNames && g.chance(0.35) {
 			if in == "header" {
 				pr.Wire = "X-" + strings.ToUpper(pr.GoName[:1]) + pr.GoName[1:] + "-Hdr"
+				if prof.DashedWireNames && g.chance(0.4) {
+					// not in canonical MIME header form
+					pr.Wire = g.pick([]string{"x-" + strings.ToLower(pr.GoName) + "-hdr", "X-" + pr.GoName + "-HDR", strings.ToLower(pr.GoName) + "-token"})
+				}
 			} else {
 				pr.Wire = pr.GoName + "_q"
 				if prof.DashedWireNames && g.chance(0.4) {
@@ -1213,6 +1238,19 @@ func (g *gen) genMethod(c *Controller, idx int) Method {
 	}
 	// shuffle parameter order (signature order is what counts)
 	g.r.Shuffle(len(m.Params), func(i, j int) { m.Params[i], m.Params[j] = m.Params[j], m.Params[i] })
+	if prof.GroupedParams && len(m.Params) >= 3 && g.chance(0.35) {
+		// bring same-typed parameters together and declare them as grouped fields
+		sort.SliceStable(m.Params, func(i, j int) bool {
+			return m.Params[i].Type.GoExpr(c.Pkg, func(k string) string { return k }) < m.Params[j].Type.GoExpr(c.Pkg, func(k string) string { return k })
+		})
+		if g.chance(0.5) && len(m.Params) > 3 {
+			// keep one differently typed parameter after the group
+			last := len(m.Params) - 1
+			m.Params[0], m.Params[last] = m.Params[last], m.Params[0]
+		}
+		m.GroupParams = true
+		g.p.SetFeature("grouped-parameter-fields")
+	}
 	m.Ret = g.retType()
 	if prof.CustomErrors && g.chance(0.25) {
 		// custom error type lives in the controller's package (DESIGN App. L)
@@ -1235,6 +1273,9 @@ func (g *gen) genMethod(c *Controller, idx int) Method {
 			}
 		}
 		ne := g.r.Intn(3)
+		if prof.RepeatedErrCodes {
+			ne = g.r.Intn(5)
+		}
 		codes := []int{400, 401, 403, 404, 409, 422, 500, 503}
 		seen := map[int]bool{}
 		for i := 0; i < ne; i++ {
@@ -1248,6 +1289,16 @@ func (g *gen) genMethod(c *Controller, idx int) Method {
 				er.Descr = "Failure " + fmt.Sprint(cd)
 			}
 			m.ErrResponses = append(m.ErrResponses, er)
+		}
+		if prof.ErrCodeIsSuccess && m.Response != 0 && g.chance(0.25) {
+			m.ErrResponses = append(m.ErrResponses, ErrResp{Code: m.Response, Descr: "Same code as the success response"})
+			g.p.SetFeature("error-response-code-equals-success-code")
+		}
+		if prof.RepeatedErrCodes && len(m.ErrResponses) >= 2 && g.chance(0.3) {
+			// repeat the first code right after itself: a warning; the codes after it must survive
+			dup := m.ErrResponses[0]
+			m.ErrResponses = append([]ErrResp{dup}, m.ErrResponses...)
+			g.p.SetFeature("repeated-error-response-code")
 		}
 	}
 	if prof.RouteStyle == "slashy" {
